@@ -130,6 +130,10 @@ pub enum NewCfg {
 pub struct Case {
     pub depth: usize,
     pub calls: Vec<Call>,
+    /// which of the caller's threads makes the FFI calls / reads the state through the FFI
+    /// (0 = everything on one thread; see `thread_plan`)
+    #[serde(default)]
+    pub caller: u8,
 }
 
 // ---------------------------------------------------------------------------------------------
@@ -756,6 +760,107 @@ fn disarm_abort_guard(case: &Case) {
 }
 
 // ---------------------------------------------------------------------------------------------
+// calling thread: a C caller may use a context from any of its threads (one call at a time). The
+// interpreter owns one long-lived helper thread; a history's plan says which calls are made there.
+// ---------------------------------------------------------------------------------------------
+
+struct JobPtr(*mut (dyn FnMut() + 'static));
+unsafe impl Send for JobPtr {}
+
+struct Helper {
+    tx: std::sync::mpsc::Sender<JobPtr>,
+    done: std::sync::mpsc::Receiver<()>,
+}
+
+thread_local! {
+    static HELPER: std::cell::RefCell<Option<Helper>> = const { std::cell::RefCell::new(None) };
+}
+
+/// run `f` on this interpreter's helper thread and wait for it (strictly one call at a time: the
+/// hand-over through the channels orders everything before the call before it, and everything in
+/// it before the return)
+fn on_helper<R>(f: impl FnOnce() -> R) -> R {
+    let inflight = INFLIGHT.with(|c| c.get());
+    let mut slot: Option<std::thread::Result<R>> = None;
+    let mut fopt = Some(f);
+    {
+        let mut job = || {
+            INFLIGHT.with(|c| c.set(inflight));
+            let f = fopt.take().unwrap();
+            slot = Some(std::panic::catch_unwind(std::panic::AssertUnwindSafe(f)));
+            INFLIGHT.with(|c| c.set((std::ptr::null(), 0)));
+        };
+        let r: &mut dyn FnMut() = &mut job;
+        // the borrow is erased for the channel; this function does not return before the job ran
+        let raw: *mut (dyn FnMut() + 'static) = unsafe { std::mem::transmute(r as *mut dyn FnMut()) };
+        HELPER.with(|h| {
+            let mut h = h.borrow_mut();
+            if h.is_none() {
+                let (tx, rx) = std::sync::mpsc::channel::<JobPtr>();
+                let (dtx, drx) = std::sync::mpsc::channel::<()>();
+                std::thread::Builder::new()
+                    .name("c11-helper".into())
+                    .spawn(move || {
+                        while let Ok(j) = rx.recv() {
+                            unsafe { (*j.0)() };
+                            if dtx.send(()).is_err() {
+                                break;
+                            }
+                        }
+                    })
+                    .expect("helper thread");
+                *h = Some(Helper { tx, done: drx });
+            }
+            let hh = h.as_ref().unwrap();
+            hh.tx.send(JobPtr(raw)).expect("helper thread gone");
+            hh.done.recv().expect("helper thread gone");
+        });
+    }
+    match slot.expect("helper did not run the job") {
+        Ok(r) => r,
+        Err(p) => std::panic::resume_unwind(p),
+    }
+}
+
+/// which thread makes the FFI call of a step / reads the state through the FFI around it
+#[derive(Clone, Copy, PartialEq, Eq, Debug)]
+struct ThreadPlan {
+    call_on_helper: bool,
+    observe_on_helper: bool,
+}
+
+fn thread_plan(caller: u8, step: usize) -> ThreadPlan {
+    match caller % 4 {
+        0 => ThreadPlan { call_on_helper: false, observe_on_helper: false },
+        1 => ThreadPlan { call_on_helper: false, observe_on_helper: true },
+        2 => ThreadPlan { call_on_helper: true, observe_on_helper: false },
+        _ => ThreadPlan { call_on_helper: step % 2 == 0, observe_on_helper: step % 3 == 0 },
+    }
+}
+
+fn observe_ffi_on(helper: bool, ctx: *mut RLN, depth: usize, extra: &[usize]) -> Obs {
+    if helper {
+        on_helper(|| observe_ffi(ctx, depth, extra))
+    } else {
+        observe_ffi(ctx, depth, extra)
+    }
+}
+
+fn ffi_call_on(helper: bool, ctx: *mut RLN, c: &Call, x: &Args, in_place: bool) -> (FfiRes, Option<String>) {
+    let run = || {
+        IN_PLACE.with(|c| c.set(in_place));
+        let r = ffi_call(ctx, c, x);
+        IN_PLACE.with(|c| c.set(false));
+        (r, PREV_OUT_BROKEN.with(|b| b.borrow_mut().take()))
+    };
+    if helper {
+        on_helper(run)
+    } else {
+        run()
+    }
+}
+
+// ---------------------------------------------------------------------------------------------
 // the lockstep interpreter
 // ---------------------------------------------------------------------------------------------
 
@@ -1038,18 +1143,17 @@ fn run_case(case: &Case, base: &std::path::Path, o: &mut Outcome) {
                 break;
             }
         };
-        let before_a = observe_ffi(pair.a, depth, &touched);
+        let plan = thread_plan(case.caller, step);
+        let before_a = observe_ffi_on(plan.observe_on_helper, pair.a, depth, &touched);
         if before_a != before_b {
             vfail!(o, "step {step} before {k}: state read through the FFI differs from the Rust API's: ffi {before_a:?} / rust {before_b:?}");
             return;
         }
         // one eligible call in three is made in place (the input Buffer struct is also the output struct)
         let in_place = (case_hash(case).wrapping_add(step as u64 * 0x9E37)) % 3 == 0;
-        IN_PLACE.with(|c| c.set(in_place));
-        let ra = ffi_call(pair.a, c, &x);
-        IN_PLACE.with(|c| c.set(false));
+        let (ra, broken) = ffi_call_on(plan.call_on_helper, pair.a, c, &x, in_place);
         o.evals += 1;
-        if let Some(msg) = PREV_OUT_BROKEN.with(|b| b.borrow_mut().take()) {
+        if let Some(msg) = broken {
             vfail!(o, "step {step} {k}: {msg}");
             return;
         }
@@ -1143,7 +1247,7 @@ fn run_case(case: &Case, base: &std::path::Path, o: &mut Outcome) {
         // ---- state after the call ---------------------------------------------------------------
         let depth = pair.depth;
         let after_b = observe_rust(pair.b.as_mut().unwrap(), depth, &touched);
-        let after_a = observe_ffi(pair.a, depth, &touched);
+        let after_a = observe_ffi_on(plan.observe_on_helper, pair.a, depth, &touched);
         if after_a != after_b {
             vfail!(o, "{}: afterwards the state read through the FFI differs from the Rust API's: ffi {after_a:?} / rust {after_b:?}", desc());
             return;
@@ -1285,6 +1389,7 @@ impl Property for C11 {
     fn rule(&self) -> String {
         "histories of up to 16 calls over the whole extern \"C\" surface (tree mutators incl. atomic / sequential batches and batch initialisation, getters, metadata, flush, set_tree, new / new_with_params incl. non-temporary trees at a location per surface, refused configurations, and drop + re-construction with the same configuration, key generation seeded and unseeded, hash, poseidon_hash, verify / verify_rln_proof / verify_with_roots / recover_id_secret on golden, mutated, truncated and random messages, and — at depth 20 — set_leaf + generate_rln_proof / generate_rln_proof_with_witness / prove) with valid and malformed buffers (a third of the calls with one input and one output buffer are made in place: the same Buffer struct serves as both); instance A only through rln::ffi, instance B only through rln::public::RLN, same arguments. \
          Per call: flag == is_ok; output bytes equal (randomised outputs: same length, same public values, cross-verified); failed call leaves out-parameters untouched; an output buffer handed out earlier still reads the same after later calls; afterwards root, leaf count, probed leaves, metadata and a membership proof read through the FFI equal those read through the Rust API. Calls for which the Rust API panics end the history and are counted under excluded_known (outside the quantifier). \
+         Calling threads: half of the histories are driven from one thread; in the others the state reads, the calls, or both in alternation are made by a second long-lived thread of the caller (strictly one call at a time) — flags, outputs and the state read through the FFI must not depend on which thread asks. \
          non-trivial = history with a failing call followed by a succeeding one, or a sequential batch on a tree with leaves_set > 0; distinct by case content".into()
     }
     fn assumptions(&self) -> Vec<String> {
@@ -1302,13 +1407,15 @@ impl Property for C11 {
     fn strategy(&self, _tier: Tier, _shard: usize) -> BoxedStrategy<Case> {
         // half of the histories start from a context that already carries metadata, so that anything a
         // later call does (or fails to do) to it is observable
-        let small = (2usize..=5, proptest::collection::vec(prop_oneof![7 => tree_call(), 3 => util_call()], 1..16), any::<bool>()).prop_map(|(depth, mut calls, init_meta)| {
+        // calling threads: mostly one; otherwise state reads / calls / both alternate with a long-lived helper thread
+        let caller = || prop_oneof![3 => Just(0u8), 1 => Just(1u8), 1 => Just(2u8), 1 => Just(3u8)];
+        let small = (2usize..=5, proptest::collection::vec(prop_oneof![7 => tree_call(), 3 => util_call()], 1..16), any::<bool>(), caller()).prop_map(|(depth, mut calls, init_meta, caller)| {
             if init_meta {
                 calls.insert(0, Call::SetMetadata(b"initial metadata".to_vec()));
             }
-            Case { depth, calls }
+            Case { depth, calls, caller }
         });
-        let big = proptest::collection::vec(prop_oneof![3 => proof_call(), 2 => tree_call(), 1 => util_call()], 1..7).prop_map(|mut calls| {
+        let big = (proptest::collection::vec(prop_oneof![3 => proof_call(), 2 => tree_call(), 1 => util_call()], 1..7), caller()).prop_map(|(mut calls, caller)| {
             // at most two proving calls per history (each costs a Groth16 proof on both sides)
             let mut n = 0;
             calls.retain(|c| {
@@ -1319,13 +1426,14 @@ impl Property for C11 {
                     true
                 }
             });
-            Case { depth: 20, calls }
+            Case { depth: 20, calls, caller }
         });
         prop_oneof![24 => small, 1 => big].boxed()
     }
     fn check(&self, ctx: &Ctx, case: &Case) -> Outcome {
         let mut o = Outcome::new();
         o.label(format!("depth/{}", case.depth));
+        o.label(format!("calling-threads/{}", ["one", "state-reads-on-helper", "calls-on-helper", "alternating"][case.caller as usize % 4]));
         arm_abort_guard(case);
         let t0 = std::time::Instant::now();
         let base = ctx.tmpdir.join(format!("c11-{:016x}-{:?}", case_hash(case), std::thread::current().id()));
